@@ -22,8 +22,9 @@ def real_from(x):
     return x * pow(R, -1, N) % N
 
 
-def run(tier, seed):
-    ck = Check('C13', tier, seed, level='proof')
+def run(tier, seed, ck=None):
+    own = ck is None
+    ck = ck or Check('C13', tier, seed, level='proof')
     jobs = [{'id': 'cmp', 'harness': 'vh_cmp', 'summaries': SUMM},
             {'id': 'cmp_self', 'harness': 'vh_cmp_self', 'summaries': SUMM},
             {'id': 'eqnil', 'harness': 'vh_equal_nil', 'summaries': SUMM}]
@@ -32,11 +33,11 @@ def run(tier, seed):
     for w in range(3):
         jobs.append({'id': 'cselnil%d' % w, 'harness': 'vh_cselect_nil', 'args': [w], 'summaries': SUMM})
     runs = ck.absorb(core.symx(HARNESS, jobs))
-    ck.extra['_runs'] = runs
+    ck.extra.setdefault('_runs', []).extend(runs)
     R_ = {r.id: r for r in runs}
-    ck.trusted = ['go/ssa + symx translation', 'SMT solvers (raced, cross-checked)',
+    ck.trusted += ['go/ssa + symx translation', 'SMT solvers (raced, cross-checked)',
                   'Montgomery conversion contracts (canonical, mutually inverse, 0->0, R mod n -> 1): re-proved on the real kernels below']
-    ck.assumptions = ['operands are canonical (limb value < n): the representation invariant preserved by every API call (C10)',
+    ck.assumptions += ['operands are canonical (limb value < n): the representation invariant preserved by every API call (C10)',
                       'condition word of CSelect: all 2^64 values']
     ck.bounds = {'operands': 'all pairs of canonical limb vectors', 'condition': 'all 64-bit words',
                  'CSelect aliasing': 'distinct / u==v / r==u / r==v / all same', 'nil operands': 'u, v, both'}
@@ -144,7 +145,7 @@ def run(tier, seed):
         p = r.paths[0]
         ok = ok and p['obs']['err'].get('label') == 'err:nil or empty scalar' and p['obs']['R']['f'] == p['obs']['R0']['f'] and not p['writes']
         ck.ground('C13.cselnil%d' % w, 'nil operand: errParamNilScalar returned and receiver untouched', ok)
-    return ck.finish()
+    return ck.finish() if own else None
 
 
 def replay(path):
